@@ -2636,6 +2636,7 @@ namespace detail {
                         JSONCONS_ASSERT(!stack.empty());
                         arg_stack.push_back(std::move(stack.back()));
                         stack.pop_back();
+                        root_ptr = std::addressof(doc); // a pipe inside this argument ends with it
                         break;
                     }
                     case token_kind::function:
